@@ -430,7 +430,7 @@ func main() {
 	total := n
 	run.ShardSize = (total + 7) / 8
 	if thorough {
-		run.ShardSize = (total + 31) / 32
+		run.ShardSize = (total + 63) / 64
 	}
 	if run.ShardSize < 20 {
 		run.ShardSize = 20
